@@ -59,7 +59,7 @@ func c12Gen(rt *rapid.T) c12Plan {
 			continue
 		}
 		seen[op] = true
-		p.Restarts = append(p.Restarts, c12Restart{Op: op, Mode: rapid.SampledFrom([]string{"after", "computed", "logged", "premature"}).Draw(rt, "mode")})
+		p.Restarts = append(p.Restarts, c12Restart{Op: op, Mode: rapid.SampledFrom([]string{"after", "computed", "logged", "premature", "replayfault"}).Draw(rt, "mode")})
 	}
 	return p
 }
@@ -274,6 +274,30 @@ func c12Execute(p c12Plan, withRestarts bool, root string) (obs c12Obs) {
 				return err
 			}
 		}
+		if mode == "replayfault" && p.RefeedDeals {
+			// (the deals operation is in the log twice under one file name: a blocked path would stop the replay at the
+			// first copy, i.e. in the middle of the log - not the fault meant here)
+			if err := restart(fmt.Sprintf("after op %d", opIndex)); err != nil {
+				return err
+			}
+		} else if mode == "replayfault" {
+			// the machine is restarted after this step; while its log is replayed, the result file of the last logged
+			// operation cannot be written (something else sits at its path): the replay re-executes every step, reports the
+			// error, the operator clears the path and goes on with the same running machine
+			_ = os.Remove(resultPath)
+			if err := os.Mkdir(resultPath, 0o755); err != nil {
+				return fmt.Errorf("harness: %w", err)
+			}
+			if err := m.Reopen(); err != nil {
+				return fmt.Errorf("reopen (replay fault after op %d): %w", opIndex, err)
+			}
+			rerr := m.M.ReplayOperationsLog(round)
+			_ = os.Remove(resultPath)
+			if rerr == nil {
+				return fmt.Errorf("harness: the replay was expected to report the unwritable result file")
+			}
+			obs.Restarted = append(obs.Restarted, fmt.Sprintf("after op %d, the replay could not write its last result file", opIndex))
+		}
 		if !operation.IsSigningState() {
 			opIndex++
 		}
@@ -475,7 +499,7 @@ func TestC12(t *testing.T) {
 		for _, nt := range pairs {
 			for part := 0; part < nt[0]; part++ {
 				for op := 0; op < 4; op++ {
-					for _, mode := range []string{"after", "computed", "logged", "premature"} {
+					for _, mode := range []string{"after", "computed", "logged", "premature", "replayfault"} {
 						job++
 						if job%sn != si {
 							continue
